@@ -4,12 +4,13 @@
 import json, re, shutil, sys
 from pathlib import Path
 
+ROOT = sys.argv[4] if len(sys.argv) > 4 else "/tmp/wt"
 log, wave = Path(sys.argv[1]).read_text().split("=== ")[1:], sys.argv[2]
 missed_first = set(sys.argv[3].split(",")) if len(sys.argv) > 3 else set()
 for block in log:
     name = block.splitlines()[0].strip()             # c01/A
     prop, k = name.split("/")
-    src = Path(f"/tmp/wt/{prop}/MUTANT_{k}")
+    src = Path(f"{ROOT}/{prop}/MUTANT_{k}")
     sid = f"{prop.upper()}-w{wave}{k}"
     dst = Path("/verif/seeded") / sid
     dst.mkdir(parents=True, exist_ok=True)
@@ -33,6 +34,7 @@ for block in log:
         "checks_run": [{"check": c, "tier": t, "exit": int(e), "violation_signatures": int(n)} for c, t, e, n in checks],
         "signatures_reported": [s for s, _ in sigs][:6],
         "detected_by_own_property_check": any(c == prop.upper() and e == "1" for c, _, e, _ in checks),
+        "detected_by": [c for c, _, e, _ in checks if e == "1"],
         "missed_before_strengthening": name in missed_first,
     }
     (dst / "meta.json").write_text(json.dumps(meta, indent=1) + "\n")
